@@ -1200,6 +1200,47 @@ pub fn size_threshold_specs(tier: &str) -> Vec<(String, Spec)> {
     v
 }
 
+/// Dense regions with access declarations (C18: the data-edge step must build promptly too).
+pub fn dense_declared_specs(kmax: usize) -> Vec<Spec> {
+    let mut v = vec![];
+    let mut regions: Vec<(usize, Vec<(usize, usize)>)> = vec![];
+    for k in [8usize, 16, 24, 32, 40, 48] {
+        if k > kmax {
+            continue;
+        }
+        regions.push(family(Family::Complete, k));
+        for w in [2usize, 3, 4] {
+            regions.push(family(Family::Layered(w), k / w));
+        }
+        regions.push(family(Family::Diamonds, k / 3));
+    }
+    for (m, e) in regions {
+        // the region alone: all writers / mixed
+        for p in [0usize, 2] {
+            let mut s = Spec::plain(m, &e);
+            s.decl = (0..m).map(|i| decl_pattern(p, i)).collect();
+            v.push(s);
+        }
+        // region (no access) + independent chain of the same length; one function of the region
+        // and one of the chain access the same type, no path between them
+        for (in_region, in_chain) in [(0usize, 2 * m - 1), (0, m), (m - 1, m), (m - 1, 2 * m - 1)] {
+            for (a, b) in [(2u8, 1u8), (1, 2), (2, 2)] {
+                let mut edges = e.clone();
+                edges.extend((m..2 * m - 1).map(|i| (i, i + 1)));
+                let mut s = Spec::plain(2 * m, &edges);
+                s.decl = (0..2 * m).map(|i| if i == in_region { vec![a] } else if i == in_chain { vec![b] } else { vec![0] }).collect();
+                v.push(s.clone());
+                // chain inserted first
+                let perm = |i: usize| if i < m { i + m } else { i - m };
+                let mut t = Spec::plain(2 * m, &edges.iter().map(|&(x, y)| (perm(x), perm(y))).collect::<Vec<_>>());
+                t.decl = (0..2 * m).map(|i| s.decl[perm(i)].clone()).collect();
+                v.push(t);
+            }
+        }
+    }
+    v
+}
+
 /// Irregular graphs from an arithmetic rule: edge i -> j (i < j) iff (a*i + j) mod m < t, for
 /// every (m, a, t) of a grid, under three labellings.
 pub fn arithmetic_specs(ns: &[usize], with_decl: bool) -> Vec<(String, Spec)> {
@@ -1933,6 +1974,29 @@ pub fn run_build_props(prop: u8, tier: &str, deadline: Instant, total: &mut Stat
                 }
             }
             run_family_space(&format!("dense / layered families up to n={kmax} (complete DAG, 2-4 wide layers, diamond chains, bipartite, each also next to an independent chain), both insertion orders"), members, deadline, &f, total, log);
+            // the same dense regions with access declarations: the data-edge step searches for
+            // paths between conflicting functions and must not walk every path either
+            {
+                let specs = dense_declared_specs(if thorough { 48 } else { 40 });
+                let t0 = Instant::now();
+                let mut st = Stats::default();
+                let specs_ref = &specs;
+                let capped = par_for(
+                    specs.len(),
+                    deadline,
+                    Stats::default,
+                    |i, local: &mut Stats| {
+                        check_pops(&specs_ref[i], local);
+                        local.fold_hashes();
+                    },
+                    |l| st.merge(l),
+                );
+                st.capped |= capped;
+                let label = format!("{} dense regions (complete DAG, 2-4 wide layers, diamond chains of 8..{} functions) with access declarations: every function writes / mixed pattern / no access except one writer in the region and one reader or writer at either end of an independent chain (no path between the two)", specs.len(), if thorough { 48 } else { 40 });
+                log.push(json!({"space": label, "inputs": st.execs, "completed": !st.capped, "wall_s": t0.elapsed().as_secs_f64()}));
+                eprintln!("  [{label}] inputs={} viol={} {}{:.1}s", st.execs, st.viol_total, if st.capped { "CAPPED " } else { "" }, t0.elapsed().as_secs_f64());
+                total.merge(st);
+            }
         }
         _ => unreachable!(),
     }
